@@ -87,10 +87,147 @@ func runC14(c *core.Ctx) {
 	if !funcAll(c, s, r) {
 		return
 	}
+	if !c14nested(c, s, r) {
+		return
+	}
 	c.NonTrivial(core.Mix(15, c.Seed))
 	if c.WantSample() {
 		c.Sample(map[string]any{"length": len(s), "prefix": clipS(s)})
 	}
+}
+
+// c14nested: callbacks that use the helpers themselves. While an outer Map / Filter /
+// Fold / GroupBy / DistinctFunc / IndexFunc / Any call is in progress, some of its
+// callback invocations run inner helper calls on another slice; inner and outer
+// results must both equal the plain definitions (a helper that keeps scratch state
+// between calls - a pooled buffer, a package-level map - mixes them up).
+func c14nested(c *core.Ctx, in []string, r *core.Rand) bool {
+	if len(in) == 0 || len(in) > 80 {
+		return true
+	}
+	other := make([]string, r.Range(1, 40))
+	for i := range other {
+		other[i] = in[r.Intn(len(in))] + fmt.Sprint(i%5)
+	}
+	innerMsg := ""
+	budget := 60
+	inner := func() {
+		if innerMsg != "" || budget == 0 || !r.Chance(1, 6) {
+			return
+		}
+		budget--
+		c.Count("nested_helper_calls_in_callbacks", 1)
+		// plain definitions
+		var wantF, wantD []string
+		seen := map[string]bool{}
+		for _, v := range other {
+			if strings.HasSuffix(v, "1") || strings.HasSuffix(v, "3") {
+				wantF = append(wantF, v)
+			}
+			if !seen[v] {
+				seen[v] = true
+				wantD = append(wantD, v)
+			}
+		}
+		if got := slices.Filter(other, func(v string) bool { return strings.HasSuffix(v, "1") || strings.HasSuffix(v, "3") }); !eqSlice(got, wantF) {
+			innerMsg = fmt.Sprintf("inner Filter gives %q want %q", got, wantF)
+		}
+		if got := slices.Distinct(other); !eqSlice(got, wantD) {
+			innerMsg = fmt.Sprintf("inner Distinct gives %q want %q", got, wantD)
+		}
+		if got := slices.Map(other, func(v string) int { return len(v) }); len(got) != len(other) || got[0] != len(other[0]) || got[len(got)-1] != len(other[len(other)-1]) {
+			innerMsg = fmt.Sprintf("inner Map gives %v", got)
+		}
+		g := slices.GroupBy(other, func(v string) byte { return v[len(v)-1] })
+		tot := 0
+		for _, gr := range g {
+			tot += len(gr.Values)
+		}
+		if tot != len(other) {
+			innerMsg = fmt.Sprintf("inner GroupBy groups hold %d of %d values", tot, len(other))
+		}
+		if got := slices.Except(other, other[:1]); len(got) > len(other)-1 {
+			innerMsg = fmt.Sprintf("inner Except kept %d of %d values although the first one is excluded", len(got), len(other))
+		}
+		if got := slices.Fold(other, "", func(st, v string) string { return st + v[:1] }); len(got) != len(other) {
+			innerMsg = fmt.Sprintf("inner Fold visited %d of %d values", len(got), len(other))
+		}
+	}
+	snap := append([]string(nil), in...)
+	fail := func(sig, msg string) bool {
+		c.Violate(sig, fmt.Sprintf("%s [input %q; the callbacks of this call used the helpers on another slice %q]", msg, clipS(snap), clipS(other)), nil)
+		return false
+	}
+	// outer calls
+	var wantM []string
+	var wantFil []string
+	var wantDis []string
+	for i, v := range snap {
+		wantM = append(wantM, v+"!")
+		if i%2 == 0 {
+			wantFil = append(wantFil, v)
+		}
+		dup := false
+		for _, d := range wantDis {
+			if strings.EqualFold(d, v) {
+				dup = true
+			}
+		}
+		if !dup {
+			wantDis = append(wantDis, v)
+		}
+	}
+	if got := slices.Map(in, func(v string) string { inner(); return v + "!" }); !eqSlice(got, wantM) {
+		return fail("Map:nested-helper-calls", fmt.Sprintf("Map gives %q want %q", clipS(got), clipS(wantM)))
+	}
+	pos := 0
+	if got := slices.Filter(in, func(v string) bool { inner(); pos++; return (pos-1)%2 == 0 }); !eqSlice(got, wantFil) {
+		return fail("Filter:nested-helper-calls", fmt.Sprintf("Filter (every other position) gives %q want %q", clipS(got), clipS(wantFil)))
+	}
+	if got := slices.Fold(in, "", func(st, v string) string { inner(); return st + v + "," }); got != strings.Join(snap, ",")+"," {
+		return fail("Fold:nested-helper-calls", fmt.Sprintf("Fold gives %q", got))
+	}
+	if got := slices.FoldReverse(in, 0, func(st int, v string) int { inner(); return st*31 + len(v) }); got != func() int {
+		st := 0
+		for i := len(snap) - 1; i >= 0; i-- {
+			st = st*31 + len(snap[i])
+		}
+		return st
+	}() {
+		return fail("FoldReverse:nested-helper-calls", "FoldReverse gives a wrong state")
+	}
+	if got := slices.DistinctFunc(in, func(a, b string) bool { inner(); return strings.EqualFold(a, b) }); !eqSlice(got, wantDis) {
+		return fail("DistinctFunc:nested-helper-calls", fmt.Sprintf("DistinctFunc gives %q want %q", clipS(got), clipS(wantDis)))
+	}
+	gs := slices.GroupBy(in, func(v string) string { inner(); return strings.ToLower(v) })
+	tot := 0
+	for _, g := range gs {
+		for _, v := range g.Values {
+			if strings.ToLower(v) != g.Key {
+				return fail("GroupBy:nested-helper-calls", fmt.Sprintf("group %q holds %q", g.Key, v))
+			}
+		}
+		tot += len(g.Values)
+	}
+	if tot != len(snap) {
+		return fail("GroupBy:nested-helper-calls", fmt.Sprintf("groups hold %d of %d values", tot, len(snap)))
+	}
+	last := len(snap) - 1
+	k := 0
+	if got := slices.IndexFunc(in, func(v string) bool { inner(); k++; return k-1 == last }); got != last {
+		return fail("IndexFunc:nested-helper-calls", fmt.Sprintf("IndexFunc (match at the last position) = %d want %d", got, last))
+	}
+	if got := slices.All(in, func(v string) bool { inner(); return true }); !got {
+		return fail("All:nested-helper-calls", "All(true) = false")
+	}
+	if innerMsg != "" {
+		return fail("nested-helper-call", "inside a callback: "+innerMsg)
+	}
+	if !eqSlice(in, snap) {
+		return fail("nested:input-modified", "the input was modified")
+	}
+	c.Count("nested_callback_cases", 1)
+	return true
 }
 
 func clipS(s []string) []string {
@@ -480,6 +617,45 @@ func funcAll(c *core.Ctx, in []string, r *core.Rand) bool {
 			}
 		}
 		c.Count("groupby_countby", 2)
+	}
+	// ---- GroupBy / CountBy with keys that are == yet distinguishable (+0.0 and -0.0):
+	// the straightforward definition keeps the key of the FIRST member of each group
+	{
+		keyer := func(v string) float64 {
+			f := float64(len(v) % 2)
+			if v != "" && v[0] >= 'A' && v[0] <= 'Z' {
+				f = -f
+			}
+			return f
+		}
+		var order []float64
+		idx := map[float64]int{}
+		var members [][]string
+		for _, v := range snap {
+			k := keyer(v)
+			i, ok := idx[k]
+			if !ok {
+				i = len(order)
+				idx[k] = i
+				order = append(order, k)
+				members = append(members, nil)
+			}
+			members[i] = append(members[i], v)
+		}
+		gs := slices.GroupBy(in, keyer)
+		cs := slices.CountBy(in, keyer)
+		if len(gs) != len(order) || len(cs) != len(order) {
+			return fail("GroupBy:groups[float keys]", fmt.Sprintf("GroupBy/CountBy returned %d/%d groups want %d (keys %v)", len(gs), len(cs), len(order), order))
+		}
+		for i := range order {
+			if math.Float64bits(gs[i].Key) != math.Float64bits(order[i]) || math.Float64bits(cs[i].Key) != math.Float64bits(order[i]) {
+				return fail("GroupBy:group-key[float keys]", fmt.Sprintf("group %d has key %v (GroupBy) / %v (CountBy); its first member gives the key %v", i, gs[i].Key, cs[i].Key, order[i]))
+			}
+			if !eqSlice(gs[i].Values, members[i]) || cs[i].Count != len(members[i]) {
+				return fail("GroupBy:members[float keys]", fmt.Sprintf("group %v has members %q (count %d) want %q", order[i], clipS(gs[i].Values), cs[i].Count, clipS(members[i])))
+			}
+		}
+		c.Count("groupby_countby_signed_zero_keys", 1)
 	}
 	// ---- Trim family
 	{
